@@ -8,7 +8,6 @@ import (
 	"net/url"
 	"os"
 	"path/filepath"
-	"sort"
 	"strconv"
 	"strings"
 	"sync"
@@ -259,15 +258,6 @@ func (p *probeReq) build() *bfe_basic.Request {
 }
 
 // ------------------------------------------------------------ small helpers
-
-func sortedKeys(m map[string]string) []string {
-	ks := make([]string, 0, len(m))
-	for k := range m {
-		ks = append(ks, k)
-	}
-	sort.Strings(ks)
-	return ks
-}
 
 func flipCase(g *vkit.Rand, s string) string {
 	b := []byte(s)
